@@ -31,7 +31,7 @@ def gen_program(rng, n_stmts, max_rows=4, max_len=4, with_assign=True):
         x = rng.choice(live)
         rows = store.val(x)
         n, m = len(rows), max([len(r) for r in rows], default=0)
-        kind = rng.choice(["select", "select", "select", "alias", "add_scalar", "add_arrays", "concat", "sort", "cumsum", "diff",
+        kind = rng.choice(["select", "select", "select", "alias", "add_scalar", "add_arrays", "concat", "concat1", "sort", "cumsum", "diff",
                            "read", "read", "read_idx", "read_sum"] + (["assign", "assign", "assign"] if with_assign else []))
         if kind == "select":
             r = ragidx.rowsel_random(n, rng)
@@ -52,7 +52,7 @@ def gen_program(rng, n_stmts, max_rows=4, max_len=4, with_assign=True):
             same = [i for i in live if [len(r) for r in store.val(i)] == [len(r) for r in rows]]
             y = rng.choice(same) if (kind == "add_arrays" and rng.random() < 0.85) else rng.choice(live)
             add({"s": kind, "x": x, "y": y})
-        elif kind in ("sort", "cumsum", "diff"):
+        elif kind in ("sort", "cumsum", "diff", "concat1"):
             add({"s": kind, "x": x})
         elif kind == "assign":
             r = ragidx.rowsel_random(n, rng)
@@ -116,6 +116,8 @@ class RefStore:
             if s == "concat":
                 other = self.val(st["y"])
                 return self.alloc([list(r) for r in rows] + [list(r) for r in other])
+            if s == "concat1":          # np.concatenate([x]): a new array with the same rows
+                return self.alloc([list(r) for r in rows])
             if s == "sort":
                 return self.alloc([sorted(r) for r in rows])
             if s == "cumsum":
@@ -212,6 +214,8 @@ def run_real(prog, extra_reads=None, variant=0):
                 y = xs[st["y"]]
                 if y is None: raise IndexError()
                 xs.append(np.concatenate([x, y])); trace.append(True)
+            elif s == "concat1":
+                xs.append(np.concatenate([x])); trace.append(True)
             elif s == "sort":
                 xs.append(x.sort(axis=-1)); trace.append(True)
             elif s == "cumsum":
